@@ -8,7 +8,11 @@ from cuqi.distribution import (Gaussian, GMRF, LMRF, Gamma, Posterior, UserDefin
 from cuqi.implicitprior import RegularizedGaussian
 from cuqi.model import LinearModel, Model
 
-from .core import Probe
+from .core import Probe, Ctx
+
+
+def core_ctx0():
+    return Ctx(0)
 
 # --------------------------------------------------------------------------- smooth densities
 
@@ -301,19 +305,28 @@ def build_exp_sampler(ctx, sc, callback=None, target=None):
 
 # --------------------------------------------------------------------------- hierarchical joints (Gibbs)
 
-def gibbs_joint(rec):
+def gibbs_joint(rec, ctx=None):
     """2..4 block hierarchical joint, already conditioned on data.  rec: {zseed, n, m, shape}.
-    Returns (joint, data dict).  Pure function of the recipe: calling it twice gives a twin."""
+    Returns (joint, data dict).  Pure function of the recipe: calling it twice gives a twin.
+    With rec['model']=='func' the forward model is a pair of probes (fault-injectable)."""
     rs = np.random.RandomState(rec["zseed"])
     n, m = rec["n"], rec["m"]
     A = rs.randn(m, n)
     yobs = rs.randn(m)
+    probes = {}
+    if rec.get("model") == "func":
+        pf = Probe(ctx or core_ctx0(), "forward", lambda x: A @ np.asarray(x, float).reshape(-1))
+        pa = Probe(ctx or core_ctx0(), "adjoint", lambda z: A.T @ np.asarray(z, float).reshape(-1))
+        probes = {"forward": pf, "adjoint": pa}
+        mk_model = lambda: LinearModel(pf, pa, range_geometry=m, domain_geometry=n)
+    else:
+        mk_model = lambda: LinearModel(A)
     shape = rec.get("shape", "x_s")
     if shape == "x_s":          # x | s-independent prior ; noise precision s
         s = Gamma(1.0, 1e-1, name="s")
         x = Gaussian(np.zeros(n), 1.0, name="x") if rec.get("xprior", "gauss") == "gauss" else \
             GMRF(np.zeros(n), 3.0, name="x")
-        y = Gaussian(LinearModel(A)(x), cov=lambda s: 1 / s, name="y")
+        y = Gaussian(mk_model()(x), cov=lambda s: 1 / s, name="y")
         J = JointDistribution(y, x, s)(y=yobs)
     elif shape == "x_d_s":      # prior precision d, noise precision s
         d = Gamma(1.0, 1e-1, name="d")
@@ -322,12 +335,12 @@ def gibbs_joint(rec):
             x = GMRF(np.zeros(n), prec=lambda d: d, name="x")
         else:
             x = Gaussian(np.zeros(n), prec=lambda d: d, name="x")
-        y = Gaussian(LinearModel(A)(x), cov=lambda s: 1 / s, name="y")
+        y = Gaussian(mk_model()(x), cov=lambda s: 1 / s, name="y")
         J = JointDistribution(y, x, d, s)(y=yobs)
     elif shape == "x_d_lmrf":   # LMRF prior with scale 1/d, fixed noise
         d = Gamma(1.0, 1e-1, name="d")
         x = LMRF(0, scale=lambda d: 1 / d, geometry=n, name="x")
-        y = Gaussian(LinearModel(A)(x), 0.3, name="y")
+        y = Gaussian(mk_model()(x), 0.3, name="y")
         J = JointDistribution(y, x, d)(y=yobs)
     elif shape == "x_z_s":      # two vector blocks entering one likelihood + noise precision
         s = Gamma(1.0, 1e-1, name="s")
@@ -338,7 +351,7 @@ def gibbs_joint(rec):
         J = JointDistribution(y, x, z, s)(y=yobs)
     else:
         raise ValueError(shape)
-    return J, {"A": A, "y": yobs}
+    return J, {"A": A, "y": yobs, "probes": probes}
 
 
 # --------------------------------------------------------------------------- Gibbs strategies
